@@ -893,6 +893,8 @@ def gen_forms(rng):
 
 def check(run):
     run.prove(MODULE, THEOREMS)
+    run.source_tie(['SrcCurved'], 'GeoVerif.Props.C03Src',
+                   ['GV.C03Src.' + t for t in ('containsCircle_eq', 'containsEllipse_eq', 'containsRing_eq')])
     rng = run.rng
     kinds = {}
     n_shapes = run.scale(130, 3400)
